@@ -2,6 +2,7 @@ package main
 
 import (
 	"fmt"
+	"strings"
 	"go/types"
 	"sort"
 
@@ -121,6 +122,9 @@ func (fr *Frame) probeLoop(li *loopInfo, cur *State) (locals []*ssa.Alloc, keys 
 		savedAx[k] = v
 	}
 	savedAxUsed := len(r.axiomsUsed)
+	prevWrites, prevCtr0 := r.writes, r.probeCtr0
+	r.writes = map[string][]string{}
+	r.probeCtr0 = r.ctr
 	r.probing++
 	prevSink, prevHeader := fr.probeSink, fr.probeHeader
 	modL := map[*ssa.Alloc]bool{}
@@ -188,6 +192,24 @@ func (fr *Frame) probeLoop(li *loopInfo, cur *State) (locals []*ssa.Alloc, keys 
 			fr.execBlock(b, st)
 		}
 	}()
+	// which heaps were only written at objects allocated inside the loop body
+	li.freshOnly = map[string]bool{}
+	for k := range modK {
+		ws, seen := r.writes[k]
+		fresh := seen
+		for _, w := range ws {
+			if !r.isFreshRef(w) {
+				fresh = false
+			}
+		}
+		li.freshOnly[k] = fresh
+	}
+	if prevWrites != nil {
+		for k, ws := range r.writes {
+			prevWrites[k] = append(prevWrites[k], ws...)
+		}
+	}
+	r.writes, r.probeCtr0 = prevWrites, prevCtr0
 	for a := range modL {
 		locals = append(locals, a)
 	}
@@ -218,6 +240,22 @@ func (fr *Frame) enterLoop(li *loopInfo, cur *State) *State {
 			r.oblige(cur, "loop-init", fmt.Sprintf("%s#loop%d:init:%s", name, li.ord, inv.Label), mergeTags(inv.Tags, fr.safetyTags()), g, inv.Src, true, li.header.Instrs[0].Pos())
 		}
 	}
+	if r.probing == 0 && fr.top && r.contract != nil && r.entryEnv != nil {
+		// init case of the implicit frame invariant
+		items := r.topFrameItems(r.entryEnv, r.entryState)
+		for _, k := range keys {
+			if frameKeySkipped(k) || li.freshOnly[k] || !(strings.HasPrefix(k, "H|") || strings.HasPrefix(k, "A|") || strings.HasPrefix(k, "M")) {
+				continue
+			}
+			if r.heapGet(r.entryState, k).S == r.heapGet(cur, k).S {
+				continue
+			}
+			x := r.havoc("fx", "Int")
+			if g, ok := r.frameGoal(items, r.entryState, cur, k, x); ok {
+				r.oblige(cur, "loop-frame", fmt.Sprintf("%s#loop%d:init:frame:%s", name, li.ord, r.eng.heapDecls[k].name), fr.safetyTags(), g, "code before the loop changes only what the modifies clause allows", true, li.header.Instrs[0].Pos())
+			}
+		}
+	}
 	st := cur.clone()
 	for _, a := range locals {
 		T := deref(a.Type())
@@ -235,6 +273,26 @@ func (fr *Frame) enterLoop(li *loopInfo, cur *State) *State {
 		}
 	}
 	li.modLocals, li.modKeys = locals, keys
+	// automatic loop frames
+	for _, k := range keys {
+		if frameKeySkipped(k) || !(strings.HasPrefix(k, "H|") || strings.HasPrefix(k, "A|") || strings.HasPrefix(k, "M")) {
+			continue
+		}
+		if li.freshOnly[k] {
+			// every write in the body targets an object allocated in the body: older objects are untouched
+			wmPre := r.heapGet(cur, r.eng.heapKeyAlloc())
+			H0, H1 := r.heapGet(cur, k), r.heapGet(st, k)
+			r.assume(st, Term{fmt.Sprintf("(forall ((fx Int)) (! (=> (<= fx %s) (= (select %s fx) (select %s fx))) :pattern ((select %s fx))))", wmPre.S, H1.S, H0.S, H1.S), "Bool"})
+			continue
+		}
+		if fr.top && r.contract != nil && r.entryEnv != nil {
+			// the loop may only change what the function's modifies clause allows (checked at every back edge)
+			items := r.topFrameItems(r.entryEnv, r.entryState)
+			if g, ok := r.frameGoal(items, r.entryState, st, k, Term{"fx", "Int"}); ok {
+				r.assume(st, Term{fmt.Sprintf("(forall ((fx Int)) (! %s :pattern ((select %s fx))))", g.S, r.heapGet(st, k).S), "Bool"})
+			}
+		}
+	}
 	if spec != nil {
 		env := fr.loopEnv(li, st)
 		for _, inv := range spec.Invariants {
@@ -273,6 +331,19 @@ func (fr *Frame) checkLoopStep(li *loopInfo, st *State) {
 	for _, inv := range spec.Invariants {
 		g := r.evalBool(env, inv)
 		r.oblige(st, "loop-step", fmt.Sprintf("%s#loop%d:%s:%s", name, li.ord, stepName, inv.Label), mergeTags(inv.Tags, fr.safetyTags()), g, inv.Src, true, li.header.Instrs[0].Pos())
+	}
+	// implicit frame invariant (see enterLoop)
+	if fr.top && r.contract != nil && r.entryEnv != nil {
+		items := r.topFrameItems(r.entryEnv, r.entryState)
+		for _, k := range li.modKeys {
+			if frameKeySkipped(k) || li.freshOnly[k] || !(strings.HasPrefix(k, "H|") || strings.HasPrefix(k, "A|") || strings.HasPrefix(k, "M")) {
+				continue
+			}
+			x := r.havoc("fx", "Int")
+			if g, ok := r.frameGoal(items, r.entryState, st, k, x); ok {
+				r.oblige(st, "loop-frame", fmt.Sprintf("%s#loop%d:%s:frame:%s", name, li.ord, stepName, r.eng.heapDecls[k].name), fr.safetyTags(), g, "loop body changes only what the modifies clause allows", true, li.header.Instrs[0].Pos())
+			}
+		}
 	}
 	if spec.Decreases != nil {
 		sv := r.eval(env, spec.Decreases.E)
